@@ -482,6 +482,12 @@ def r10_idle_counter(ctx, prog):
     if len(waits) != 1:
         raise AnalysisBroken('ThreadPool::threadProc: expected one condition-variable wait, found %d' % len(waits))
     wp = q.pt(w, waits[0])
+    inc_pts, dec_pts = [], []
+    for st in w.stmts:
+        if st and st['k'] == 'MemberExpr' and st.get('q') == fld and locks.classify_access(w, st['i']) == 'w':
+            ps_ = w.s(w.up(st['i'])[0])
+            if ps_ and ps_['k'] == 'UnaryOperator' and ps_.get('op') in ('++', '--'):
+                (inc_pts if ps_['op'] == '++' else dec_pts).append(q.pt(w, ps_))
     for f in scope_funcs(prog, cls):
         for st in f.stmts:
             if not st or st['k'] != 'MemberExpr' or st.get('q') != fld or locks.classify_access(f, st['i']) != 'w':
@@ -490,12 +496,14 @@ def r10_idle_counter(ctx, prog):
             ps = f.s(p_)
             ok, why = False, 'write outside the wait bracket'
             if f is w and ps['k'] == 'UnaryOperator' and ps.get('op') == '++':
+                # the bracket ++ ... [wait] ... --: the wait lies inside it and every way on from the increment passes a decrement (the wait itself may be skipped when
+                # its condition already holds: `if (!ready) wait(lk);` is the same bracket)
                 pp = q.pt(w, ps)
-                ok = w.cfg.dominates(pp, wp) and not w.cfg.exists_path(pp, 'exit', avoid=[wp]) and not w.cfg.exists_path(pp, pp, avoid=[wp])
-                why = 'increment immediately before the wait'
+                ok = w.cfg.dominates(pp, wp) and bool(dec_pts) and not w.cfg.exists_path(pp, 'exit', avoid=dec_pts) and not w.cfg.exists_path(pp, pp, avoid=dec_pts)
+                why = 'increment before the wait, undone on every way on'
             elif f is w and ps['k'] == 'UnaryOperator' and ps.get('op') == '--':
                 pp = q.pt(w, ps)
-                ok = w.cfg.dominates(wp, pp) and q.must_follow(w, wp, [pp])
+                ok = bool(inc_pts) and any(w.cfg.dominates(ip, pp) for ip in inc_pts) and q.must_follow(w, wp, [pp])
                 why = 'decrement on every path after the wait'
             elif ps['k'] == 'BinaryOperator' and ps.get('op') == '=' and f.s(f.strip_casts(ps['ch'][1])).get('cv') == 0:
                 joins = [x for x in f.calls() if x.get('fn') == 'join' and x.get('cls') == 'std::thread']
@@ -688,4 +696,6 @@ def run(ctx):
     ctx.guard(r13_progress, ctx, prog)
     from tbxlint import progress
     ctx.guard(progress.run_files, ctx, prog, 'C05.R14', ['eventx/thread_pool.cpp', 'eventx/work_thread.cpp', 'base/cabinet.hpp', 'base/object_pool.hpp'], 'thread pool / work thread', floor=1)
+    from rules import C05_replay
+    ctx.guard(C05_replay.r15, ctx, prog)
     return prog
